@@ -495,6 +495,13 @@ func raceSolvers(file string, timeout time.Duration, need int) []SolverResult {
 	ctx, cancel := context.WithCancel(context.Background())
 	defer cancel()
 	var results []SolverResult
+	if need <= 1 {
+		// most obligations are decided by z3-new in a few hundredths of a second: try it alone briefly before paying for three processes
+		r := runOne(ctx, solvers[0], file, 400*time.Millisecond)
+		if r.Status == "unsat" || r.Status == "sat" {
+			return []SolverResult{r}
+		}
+	}
 	ch := make(chan SolverResult, len(solvers))
 	var wg sync.WaitGroup
 	for _, sp := range solvers {
